@@ -85,10 +85,16 @@ def build(case):
         # tori under half turns: the axis may end up antiparallel to z
         kind, fam = rng.choice([('tz', 'circular'), ('ty', 'elliptic'),
                                 ('tx', 'circular'), ('tz', 'elliptic')])
+    if rot == 'small-angle' and case.index % 2 == 0:
+        # objects with an axis: a small tilt must not be rounded away
+        kind, fam = rng.choice([('c/z', 'any'), ('cx', 'any'), ('c/y', 'any'),
+                                ('rcc', 'rotated'), ('kz', 'minus'),
+                                ('tz', 'circular'), ('px', 'any'),
+                                ('rpp', 'any')])
     if attach == 'trcl-pair':
         kind, fam = PAIR_KINDS[(case.index + rng.randrange(len(PAIR_KINDS)))
                                % len(PAIR_KINDS)]
-        if rot in ('identity', 'translation', 'near-axis'):
+        if rot in ('identity', 'translation', 'near-axis', 'small-angle'):
             rot = 'generic'
     macro = kind in ref.MACROBODIES
     params = macrobody(rng, kind, fam) if macro else elementary(rng, kind, fam)
